@@ -13,6 +13,7 @@ src="/tmp/mut/$id/out/$v"
 [ -f "$src/patch.diff" ] || src="/tmp/mut4/$id/out"
 [ -f "$src/patch.diff" ] || src="/tmp/mut6/$id/out"
 [ -f "$src/patch.diff" ] || src="/tmp/mut7/$id/out"
+[ -f "$src/patch.diff" ] || src="/tmp/mut8/$id/out"
 [ -f "$src/patch.diff" ] || { echo "no patch for $id $v"; exit 2; }
 export GOFLAGS=-mod=mod GOPROXY=off
 wt=$(mktemp -d /tmp/seedwt.XXXXXX); rmdir "$wt"
